@@ -30,7 +30,9 @@ def check(ctx):
     ctx.rule('C08.T', 'owner types are not copyable')
     ctx.rule('C08.N', 'node reference cycles are broken before the list lets go of its nodes')
     ctx.rule('C08.O', 'raw ownership in LargeData / AnyData')
+    ctx.rule('C08.G', 'the ordered queue list reads a slot (get) only where the slot is established non-empty')
     n = 0
+    ng = 0
     for tu in ctx.tus:
         info = TUInfo(tu)
         n += run_slot_rules(ctx, 'C08.P', None, tu, only_kinds=('P-',))
@@ -39,6 +41,10 @@ def check(ctx):
         check_types(ctx, tu)
         check_nodes(ctx, tu, info)
         check_raw(ctx, tu, info)
+        # the ordered queue list reads slot contents inside a container operation (its comparator): never on a cleared slot
+        from .c13 import guarded_gets
+        ng += guarded_gets(ctx, tu, 'C08.G')
+    ctx.require(ng >= 2, 'C08.G: the comparator of the ordered queue list was not analysed (%d guarded reads found)' % ng)
     ctx.require(n >= 20, 'C08.P: fewer than 20 processing functions interpreted (%d)' % n)
     ctx.require_min('C08.P', 12)
     ctx.require_min('C08.T', 4)
